@@ -66,7 +66,7 @@ def tree_case(draw):
         for _ in range(nreq):
             g = draw(st.integers(0, len(obs) - 1))
             req.append([g, draw(st.integers(1, obs[g]['nf']))])
-    return dict(obs=obs, conv=conv, req=req, staged=draw(st.booleans()), run1d_empty=draw(st.sampled_from([False, False, True])) and conv != 'mjd-omitted', config=draw(st.sampled_from(['env', 'env', 'path', 'path-keywords', 'env-run2d-keyword'])), photo=draw(st.booleans()), photo_layout=draw(st.sampled_from(['beside', 'match', 'beside'])),
+    return dict(obs=obs, conv=conv, req=req, staged=draw(st.booleans()), run1d_empty=draw(st.sampled_from([False, False, True])), config=draw(st.sampled_from(['env', 'env', 'path', 'path-keywords', 'env-run2d-keyword'])), photo=draw(st.booleans()), photo_layout=draw(st.sampled_from(['beside', 'match', 'beside'])),
                 run2d=draw(st.sampled_from([RUN2D, RUN2D, 'trunk', '26', 'DR12x', 'master'])), plug_fiberid=draw(st.sampled_from(['rows', 'rows', 'unplugged', 'reversed'])))
 
 
@@ -164,7 +164,7 @@ def tree_body(case):
                 dd = os.path.join(top, 'boss', 'decoy9', '%04d' % o['plate'])
                 os.makedirs(dd, exist_ok=True)
                 open(os.path.join(dd, 'spPlate-%04d-%05d.fits' % (o['plate'], 58100 + o['plate'] % 50)), 'w').close()
-        if case['config'] == 'path-keywords' and conv != 'mjd-omitted':
+        if case['config'] == 'path-keywords':
             # everything handed over explicitly: no reduction version in the environment at all
             kw.update(run2d=r2, run1d=RUN1D)
             for k in ('RUN2D', 'RUN1D', 'BOSS_SPECTRO_REDUX', 'SPECTRO_REDUX'):
